@@ -723,7 +723,7 @@ func WellFormedAlternatives(tag uint8) []*Node {
 	return []*Node{
 		NIntAs(tag, 1, WByte),
 		NIntAs(tag, 0x0102, WShort),
-		NIntAs(tag, 0x01020304, WInt),
+		NIntAs(tag, 0x00010203, WInt), // small enough to be harmless if taken for a length
 		NIntAs(tag, 0x0102030405060708, WLong),
 		NFloat(tag, 0x3f800000),
 		NDouble(tag, 0x3ff0000000000000),
